@@ -270,9 +270,9 @@ func (pc *ProviderCache) Refresh(ctx context.Context) error {
 		<-pc.writeLock
 	}()
 
-	pc.seq++
-	seq := pc.seq
-
+	// Fetch from all sources before touching any cache state, so that a
+	// refresh canceled part-way leaves nothing half-applied and unpublished.
+	fetched := make([][]*model.ProviderInfo, 0, len(pc.sources))
 	for _, src := range pc.sources {
 		// Get provider info from each source.
 		fetchedInfos, err := src.FetchAll(ctx)
@@ -283,7 +283,13 @@ func (pc *ProviderCache) Refresh(ctx context.Context) error {
 			}
 			continue
 		}
+		fetched = append(fetched, fetchedInfos)
+	}
 
+	pc.seq++
+	seq := pc.seq
+
+	for _, fetchedInfos := range fetched {
 		// Collect latest info on each provider.
 		for _, fetchedInfo := range fetchedInfos {
 			pid := fetchedInfo.AddrInfo.ID
